@@ -3,8 +3,8 @@
 # runs ./check <prop> <tier> for each, reverts. Output per property in /tmp/grp-<prop>.log
 tier=$1; shift
 cd /verif
-for p in "$@"; do git -C /repo apply --check seeded/$p-3/patch.diff || { echo "patch $p does not apply"; exit 2; }; done
-for p in "$@"; do git -C /repo apply seeded/$p-3/patch.diff; done
+for p in "$@"; do git -C /repo apply --check /verif/seeded/$p-3/patch.diff || { echo "patch $p does not apply"; exit 2; }; done
+for p in "$@"; do git -C /repo apply /verif/seeded/$p-3/patch.diff; done
 git -C /repo status --short
 for p in "$@"; do
   ./check $p $tier > /tmp/grp-$p.log 2>&1; code=$?
